@@ -220,3 +220,13 @@ CORPUS += [
     V("C19", "multistart-prefix-added-twice", _RFF, '        elif "multistart" in attr_get:\n            return\n        else:\n            setattr(self.policy, attribute, f"multistart_{attr_get}")', '        setattr(self.policy, attribute, f"multistart_{attr_get}")', "C19.i"),
     V("C19", "explicit-file-name-joined-again", _BASE, '        f = getattr(self, f"{phase}_file") if filename is None else filename', '        f = getattr(self, f"{phase}_file") if filename is None else pjoin(self.data_dir, filename)', "C19.i"),
 ]
+
+_CTX = "rl4co/models/nn/env_embeddings/context.py"
+_PTD = "rl4co/models/zoo/ptrnet/decoder.py"
+CORPUS += [
+    V("C14", "ptrnet-attention-dimension-less-squeeze", _PTD, "        u = torch.bmm(v_view, F.tanh(expanded_q + e)).squeeze(1)", "        u = torch.bmm(v_view, F.tanh(expanded_q + e)).squeeze()", "C14.b"),
+    V("C14", "tsp-context-caches-an-embedding-on-the-module", _CTX, "        return self.project_context(context_embedding)\n\n\nclass VRPContext", "        self.last_context = context_embedding\n        return self.project_context(context_embedding)\n\n\nclass VRPContext", "C14.h"),
+    V("C13", "tsp-context-caches-an-embedding-on-the-module-c13", _CTX, "        return self.project_context(context_embedding)\n\n\nclass VRPContext", "        self.last_context = context_embedding\n        return self.project_context(context_embedding)\n\n\nclass VRPContext", "C13.g"),
+    V("C10", "greedy-constructor-drops-the-filters", _DEC, 'class Greedy(DecodingStrategy):\n    name = "greedy"\n', 'class Greedy(DecodingStrategy):\n    name = "greedy"\n\n    def __init__(self, **kwargs) -> None:\n        kwargs.update(top_k=0, top_p=0.0)\n        super().__init__(**kwargs)\n', "C10.f"),
+    V("C11", "greedy-constructor-drops-the-filters-c11", _DEC, 'class Greedy(DecodingStrategy):\n    name = "greedy"\n', 'class Greedy(DecodingStrategy):\n    name = "greedy"\n\n    def __init__(self, **kwargs) -> None:\n        kwargs.update(top_k=0, top_p=0.0)\n        super().__init__(**kwargs)\n', "C11.i"),
+]
